@@ -29,6 +29,22 @@ Theorem C01_members_kept : forall T P url_ok norm_iri norm n row m m', rt_type T
   end.
 Proof. exact members_kept. Qed.
 
+(* the rebuilt @context (cx_type: what Serialize names) holds exactly the vocabularies used - the type's own and, for every
+   known member that encodes to something, the property's own and those of the values embedded in it - and a canonical
+   document's round trip leaves it unchanged.  (cx_doc is compared with the @context of every real output by the check.) *)
+Theorem C01_context_exact : forall T P url_ok norm_iri norm n row m u,
+  In u (cx_type T P url_ok norm_iri norm (S n) row m) <->
+  u = t_vocab_uri row \/
+  exists kv p is_map, In kv m /\ prop_of_key P row (fst kv) = Some (p, is_map) /\
+    (is_map && match assoc (p_name p) m with Some _ => true | None => false end) = false /\
+    rt_prop T url_ok norm_iri norm (rt_type T P url_ok norm_iri norm n) p (snd kv) <> JNull /\
+    (u = p_vocab_uri p \/ In u (cx_prop T url_ok norm (rt_type T P url_ok norm_iri norm n) (cx_type T P url_ok norm_iri norm n) p (snd kv))).
+Proof. exact context_exact. Qed.
+Theorem C01_context_roundtrip : forall T P url_ok norm_iri norm n row m m',
+  cmembers P url_ok norm_iri norm n row m -> rt_type T P url_ok norm_iri norm n row m = Some m' ->
+  cx_type T P url_ok norm_iri norm n row m' = cx_type T P url_ok norm_iri norm n row m.
+Proof. exact context_roundtrip. Qed.
+
 (* REFUTED clause: with both spellings of a natural-language property present the Map one is dropped (finding F13) *)
 Definition f13_doc : json :=
   JObj [("@context", JStr "https://www.w3.org/ns/activitystreams"); ("type", JStr "Note"); ("name", JStr "both"); ("nameMap", JObj [("en", JStr "spellings")])].
@@ -74,3 +90,5 @@ Qed.
 Print Assumptions C01_roundtrip.
 Print Assumptions C01_members_kept.
 Print Assumptions C01_both_spellings_refuted.
+Print Assumptions C01_context_exact.
+Print Assumptions C01_context_roundtrip.
